@@ -265,4 +265,289 @@ theorem conserve_send {cfg : Config} (ha : Assm cfg) {w w' : World} (hl : LInv w
       rw [hE1, hE2]
       exact hinv
 
+/-! ### … by a refund -/
+
+theorem sel_false_of_not {b : Bool} {P : Prop} (h : b = true ↔ P) (hn : ¬ P) : b = false := by
+  cases hb : b with
+  | false => rfl
+  | true => exact absurd (h.mp hb) hn
+
+theorem conserve_refund {cfg : Config} (ha : Assm cfg) {w w' : World} (hwi : WInv cfg w) (hl : LInv w)
+    (hpi : PInv cfg w) (hc : Conserve cfg w) {p : Packet} {ch' : Chain} (hp : p ∈ w.sent)
+    (href : refundPacketTokens cfg p.srcChain (w.chains p.srcChain) p.srcPort p.srcChan p.data = .ok ch')
+    (hchains : w'.chains = (w.setChain p.srcChain ch').chains) (hsent : w'.sent = w.sent)
+    (hwas : pending w p = true) (hnow : pending w' p = false)
+    (hothers : ∀ q ∈ w.sent, q ≠ p → pending w' q = pending w q) : Conserve cfg w' := by
+  intro A cA B cB X hpeer hX hnp
+  have hX' := good_peer_cons ha hpeer hX
+  have hinv := hc A cA B cB X hpeer hX hnp
+  obtain ⟨hgood, hpath, hsp, _, _⟩ := hwi.sent p hp
+  have hF := pendingSum_resolve p (selF A cA X) hl hp hsent hwas hnow hothers
+  have hB := pendingSum_resolve p (selB B cB X) hl hp hsent hwas hnow hothers
+  have hcF := selF_iff (A := A) (cA := cA) (p := p) hX hgood rfl rfl hpath.symm
+  have hcB := selB_iff (B := B) (cB := cB) (p := p) hX' hgood rfl rfl hpath.symm
+  have hchA : w'.chains A = if A = p.srcChain then ch' else w.chains A := by rw [hchains]; rfl
+  have hchB : w'.chains B = if B = p.srcChain then ch' else w.chains B := by rw [hchains]; rfl
+  obtain ⟨s, hs, _, _, _, heff⟩ := refund_effect href
+  have hsne : NotEscrow cfg s := (hpi p hp).1 s hs
+  rw [hsp] at heff
+  by_cases condF : p.srcChain = A ∧ p.srcChan = cA ∧ extract p.data.denom = X
+  · obtain ⟨rfl, rfl, rfl⟩ := condF
+    have hsF : selF p.srcChain p.srcChan (extract p.data.denom) p = true := hcF.mpr ⟨rfl, rfl, rfl⟩
+    have hsB : selB B cB (extract p.data.denom) p = false := by
+      apply sel_false_of_not hcB
+      rintro ⟨_, _, e⟩
+      have := congrArg (fun d => d.trace.length) e
+      simp at this
+    simp [hsF, hsB] at hF hB
+    rcases heff with ⟨hpT, _⟩ | ⟨_, hn2, _, hbal, hsup, _⟩
+    · rw [hnp] at hpT; cases hpT
+    · rw [hchA, hchB]
+      have hsupB : (if B = p.srcChain then ch' else w.chains B).bank.supply = (w.chains B).bank.supply := by
+        split_ifs with hBc
+        · rw [hsup, hBc]
+        · rfl
+      rw [hsupB]
+      simp only [if_true]
+      rw [hbal, moveBal_esc_out ha _ _ _ _ _ hsne]
+      simp only [and_self, if_true]
+      simp only [coin] at hinv hn2 ⊢
+      omega
+  · have hsF : selF A cA X p = false := sel_false_of_not hcF condF
+    by_cases condB : p.srcChain = B ∧ p.srcChan = cB ∧ extract p.data.denom = ⟨hop cB :: X.trace, X.base⟩
+    · obtain ⟨rfl, rfl, hXe⟩ := condB
+      have hsB : selB p.srcChain p.srcChan X p = true := hcB.mpr ⟨rfl, rfl, hXe⟩
+      simp [hsF, hsB] at hF hB
+      rcases heff with ⟨_, hbal, hsup, _⟩ | ⟨hpF, _⟩
+      · rw [hchA, hchB]
+        simp only [if_true]
+        rw [hsup, hXe]
+        simp only [if_true]
+        have hbalA : (if A = p.srcChain then ch' else w.chains A).bank.bal (cfg.escrowAddr transferPort cA) (coin cfg X) =
+            (w.chains A).bank.bal (cfg.escrowAddr transferPort cA) (coin cfg X) := by
+          split_ifs with hAc
+          · rw [hbal, hAc]
+            have : ¬ (coin cfg X = Denom.ibcDenom cfg.hashHex (extract p.data.denom) ∧ cfg.escrowAddr transferPort cA = s) :=
+              fun h => hsne _ _ h.2.symm
+            simp [this]
+          · rfl
+        rw [hbalA]
+        simp only [coin] at hinv ⊢
+        omega
+      · rw [hXe] at hpF
+        simp [hop, Denom.hasPrefix] at hpF
+    · have hsB : selB B cB X p = false := sel_false_of_not hcB condB
+      simp [hsF, hsB] at hF hB
+      have hE1 : (w'.chains A).bank.bal (cfg.escrowAddr transferPort cA) (coin cfg X) =
+          (w.chains A).bank.bal (cfg.escrowAddr transferPort cA) (coin cfg X) := by
+        rw [hchA]
+        split_ifs with hAc
+        · rw [hAc]
+          rcases heff with ⟨_, hbal, _, _⟩ | ⟨_, _, _, hbal, _, _⟩
+          · rw [hbal]
+            have : ¬ (coin cfg X = Denom.ibcDenom cfg.hashHex (extract p.data.denom) ∧ cfg.escrowAddr transferPort cA = s) :=
+              fun h => hsne _ _ h.2.symm
+            simp [this]
+          · rw [hbal, moveBal_esc_out ha _ _ _ _ _ hsne]
+            have : ¬ (cA = p.srcChan ∧ coin cfg X = Denom.ibcDenom cfg.hashHex (extract p.data.denom)) := by
+              rintro ⟨h1, h2⟩
+              exact condF ⟨hAc.symm, h1.symm, (coin_inj ha hX hgood h2).symm⟩
+            simp [this]
+        · rfl
+      have hE2 : (w'.chains B).bank.supply (coin cfg ⟨hop cB :: X.trace, X.base⟩) =
+          (w.chains B).bank.supply (coin cfg ⟨hop cB :: X.trace, X.base⟩) := by
+        rw [hchB]
+        split_ifs with hBc
+        · rw [hBc]
+          rcases heff with ⟨hpT, _, hsup, _⟩ | ⟨_, _, _, _, hsup, _⟩
+          · rw [hsup]
+            have : coin cfg ⟨hop cB :: X.trace, X.base⟩ ≠ Denom.ibcDenom cfg.hashHex (extract p.data.denom) := by
+              intro h2
+              have e := coin_inj ha hX' hgood h2
+              rw [← e] at hpT
+              simp only [hop, hasPrefix_cons, Bool.and_eq_true, beq_iff_eq, true_and] at hpT
+              exact condB ⟨hBc.symm, hpT.symm, e.symm⟩
+            simp [this]
+          · rw [hsup]
+        · rfl
+      rw [hE1, hE2, ← hF, ← hB]
+      exact hinv
+
+/-! ### … by a successful receive -/
+
+theorem recvCoin_unwind {H : Str → Str} {sp sc dp dc s : Str} (h : (extract s).hasPrefix sp sc = true) :
+    ics20RecvCoinDenom H sp sc dp dc s = Denom.ibcDenom H ⟨(extract s).trace.tail, (extract s).base⟩ := by
+  simp [ics20RecvCoinDenom, h]
+
+theorem recvCoin_mint {H : Str → Str} {sp sc dp dc s : Str} (h : (extract s).hasPrefix sp sc = false) :
+    ics20RecvCoinDenom H sp sc dp dc s = Denom.ibcDenom H ⟨⟨dp, dc⟩ :: (extract s).trace, (extract s).base⟩ := by
+  simp [ics20RecvCoinDenom, h]
+
+theorem conserve_recv_ok {cfg : Config} (ha : Assm cfg) {w w' : World} (hwi : WInv cfg w) (hl : LInv w)
+    (hpi : PInv cfg w) (hc : Conserve cfg w) {p : Packet} {ch' : Chain} (hp : p ∈ w.sent)
+    (hon : onRecvPacket cfg p.dstChain (w.chains p.dstChain) p.data p.srcPort p.srcChan p.dstPort p.dstChan = .ok ch')
+    (hchains : w'.chains = (w.setChain p.dstChain ch').chains) (hsent : w'.sent = w.sent)
+    (hwas : pending w p = true) (hnow : pending w' p = false)
+    (hothers : ∀ q ∈ w.sent, q ≠ p → pending w' q = pending w q) : Conserve cfg w' := by
+  intro A cA B cB X hpeer hX hnp
+  have hX' := good_peer_cons ha hpeer hX
+  have hinv := hc A cA B cB X hpeer hX hnp
+  obtain ⟨hgood, hpath, hsp, hdp, hpp⟩ := hwi.sent p hp
+  have hpp' := ha.peerSym _ _ _ _ hpp
+  have hpeer' := ha.peerSym _ _ _ _ hpeer
+  have hF := pendingSum_resolve p (selF A cA X) hl hp hsent hwas hnow hothers
+  have hB := pendingSum_resolve p (selB B cB X) hl hp hsent hwas hnow hothers
+  have hcF := selF_iff (A := A) (cA := cA) (p := p) hX hgood rfl rfl hpath.symm
+  have hcB := selB_iff (B := B) (cB := cB) (p := p) hX' hgood rfl rfl hpath.symm
+  have hchA : w'.chains A = if A = p.dstChain then ch' else w.chains A := by rw [hchains]; rfl
+  have hchB : w'.chains B = if B = p.dstChain then ch' else w.chains B := by rw [hchains]; rfl
+  obtain ⟨r, hr, _, _, _, heff⟩ := onRecvPacket_effect hon
+  have hrne : NotEscrow cfg r := (hpi p hp).2 r hr
+  rw [hsp, hdp] at heff
+  by_cases condF : p.srcChain = A ∧ p.srcChan = cA ∧ extract p.data.denom = X
+  · obtain ⟨rfl, rfl, rfl⟩ := condF
+    -- the packet left (A, cA): it arrives at the peer (B, cB), which mints
+    have hdst : p.dstChain = B ∧ p.dstChan = cB := by
+      rw [hpeer] at hpp
+      injection hpp with e
+      injection e with e1 e2
+      exact ⟨e1.symm, e2.symm⟩
+    obtain ⟨hdB, hdcB⟩ := hdst
+    have hsF : selF p.srcChain p.srcChan (extract p.data.denom) p = true := hcF.mpr ⟨rfl, rfl, rfl⟩
+    have hsB : selB B cB (extract p.data.denom) p = false := by
+      apply sel_false_of_not hcB
+      rintro ⟨_, _, e⟩
+      have := congrArg (fun d => d.trace.length) e
+      simp at this
+    simp [hsF, hsB] at hF hB
+    rcases heff with ⟨hpT, _⟩ | ⟨hpF, _, hbal, hsup, _⟩
+    · rw [hnp] at hpT; cases hpT
+    · rw [hchA, hchB, recvCoin_mint hpF] at *
+      simp only [hdB.symm, if_true]
+      rw [hsup, hdcB]
+      simp only [hop, if_true]
+      have hbalA : (if p.srcChain = p.dstChain then ch' else w.chains p.srcChain).bank.bal
+            (cfg.escrowAddr transferPort p.srcChan) (coin cfg (extract p.data.denom)) =
+          (w.chains p.srcChain).bank.bal (cfg.escrowAddr transferPort p.srcChan) (coin cfg (extract p.data.denom)) := by
+        split_ifs with hAc
+        · rw [hbal, hAc]
+          have : ¬ (coin cfg (extract p.data.denom) =
+              Denom.ibcDenom cfg.hashHex ⟨⟨transferPort, p.dstChan⟩ :: (extract p.data.denom).trace, (extract p.data.denom).base⟩ ∧
+              cfg.escrowAddr transferPort p.srcChan = r) := fun h => hrne _ _ h.2.symm
+          simp [this]
+        · rfl
+      rw [hbalA]
+      rw [← hdB] at hinv
+      simp only [coin, hop, hdcB] at hinv ⊢
+      omega
+  · have hsF : selF A cA X p = false := sel_false_of_not hcF condF
+    by_cases condB : p.srcChain = B ∧ p.srcChan = cB ∧ extract p.data.denom = ⟨hop cB :: X.trace, X.base⟩
+    · obtain ⟨rfl, rfl, hXe⟩ := condB
+      -- the packet left (B, cB): it arrives at the peer (A, cA), which unescrows
+      have hdst : p.dstChain = A ∧ p.dstChan = cA := by
+        rw [hpeer'] at hpp
+        injection hpp with e
+        injection e with e1 e2
+        exact ⟨e1.symm, e2.symm⟩
+      obtain ⟨hdA, hdcA⟩ := hdst
+      have hsB : selB p.srcChain p.srcChan X p = true := hcB.mpr ⟨rfl, rfl, hXe⟩
+      simp [hsF, hsB] at hF hB
+      rcases heff with ⟨hpT, _, hn2, _, hbal, hsup, _⟩ | ⟨hpF, _⟩
+      · rw [hchA, hchB]
+        have hcoin : ics20RecvCoinDenom cfg.hashHex transferPort p.srcChan transferPort p.dstChan p.data.denom = coin cfg X := by
+          rw [recvCoin_unwind hpT, hXe]
+        rw [hcoin] at hn2 hbal
+        have hsupB : (if p.srcChain = p.dstChain then ch' else w.chains p.srcChain).bank.supply = (w.chains p.srcChain).bank.supply := by
+          split_ifs with hBc
+          · rw [hsup, hBc]
+          · rfl
+        rw [hsupB]
+        simp only [hdA.symm, if_true]
+        rw [hbal, ← hdcA, moveBal_esc_out ha _ _ _ _ _ hrne]
+        simp only [and_self, if_true]
+        rw [← hdA, ← hdcA] at hinv
+        simp only [coin] at hinv hn2 ⊢
+        omega
+      · rw [hXe] at hpF
+        simp [hop, Denom.hasPrefix] at hpF
+    · have hsB : selB B cB X p = false := sel_false_of_not hcB condB
+      simp [hsF, hsB] at hF hB
+      have hE1 : (w'.chains A).bank.bal (cfg.escrowAddr transferPort cA) (coin cfg X) =
+          (w.chains A).bank.bal (cfg.escrowAddr transferPort cA) (coin cfg X) := by
+        rw [hchA]
+        split_ifs with hAc
+        · rw [hAc]
+          rcases heff with ⟨hpT, _, _, _, hbal, _, _⟩ | ⟨_, _, hbal, _, _⟩
+          · rw [hbal, moveBal_esc_out ha _ _ _ _ _ hrne]
+            have : ¬ (cA = p.dstChan ∧ coin cfg X =
+                ics20RecvCoinDenom cfg.hashHex transferPort p.srcChan transferPort p.dstChan p.data.denom) := by
+              rintro ⟨h1, h2⟩
+              rw [recvCoin_unwind hpT] at h2
+              obtain ⟨t, ht⟩ := hasPrefix_true_iff.mp hpT
+              have hgt : GoodDenom ⟨(extract p.data.denom).trace.tail, (extract p.data.denom).base⟩ := by
+                rw [ht]; exact hgood.tail ht
+              have e := coin_inj ha hX hgt h2
+              -- the packet came from the peer of (A, cA)
+              rw [← hAc, ← h1, hpeer] at hpp'
+              injection hpp' with e'
+              injection e' with e1 e2
+              apply condB
+              refine ⟨e1.symm, e2.symm, ?_⟩
+              have hd : extract p.data.denom = ⟨⟨transferPort, p.srcChan⟩ :: t, (extract p.data.denom).base⟩ := by
+                cases hh : extract p.data.denom with
+                | mk tr b => rw [hh] at ht; simp only at ht; rw [ht]
+              rw [hd, e]
+              simp only [hop, ht, List.tail_cons, e2]
+              rw [e] at ht
+              simp [ht]
+            simp [this]
+          · rw [hbal]
+            have : ¬ (coin cfg X = ics20RecvCoinDenom cfg.hashHex transferPort p.srcChan transferPort p.dstChan p.data.denom ∧
+                cfg.escrowAddr transferPort cA = r) := fun h => hrne _ _ h.2.symm
+            simp [this]
+        · rfl
+      have hE2 : (w'.chains B).bank.supply (coin cfg ⟨hop cB :: X.trace, X.base⟩) =
+          (w.chains B).bank.supply (coin cfg ⟨hop cB :: X.trace, X.base⟩) := by
+        rw [hchB]
+        split_ifs with hBc
+        · rw [hBc]
+          rcases heff with ⟨_, _, _, _, _, hsup, _⟩ | ⟨hpF, _, _, hsup, _⟩
+          · rw [hsup]
+          · rw [hsup]
+            have : coin cfg ⟨hop cB :: X.trace, X.base⟩ ≠
+                ics20RecvCoinDenom cfg.hashHex transferPort p.srcChan transferPort p.dstChan p.data.denom := by
+              intro h2
+              rw [recvCoin_mint hpF] at h2
+              obtain ⟨h1', h2'⟩ := ha.peerIds _ _ _ _ hpp
+              have hgm : GoodDenom ⟨⟨transferPort, p.dstChan⟩ :: (extract p.data.denom).trace, (extract p.data.denom).base⟩ :=
+                hgood.cons _ _ transferPort_no_sep h1' h2'
+              have e := coin_inj ha hX' hgm h2
+              injection e with etr eb
+              simp only [hop, List.cons.injEq, Hop.mk.injEq, true_and] at etr
+              obtain ⟨ecb, etr⟩ := etr
+              -- the packet came from the peer of (B, cB) = (A, cA)
+              rw [← hBc, ← ecb, hpeer'] at hpp'
+              injection hpp' with e'
+              injection e' with e1 e2
+              apply condF
+              refine ⟨e1.symm, e2.symm, ?_⟩
+              cases hh : extract p.data.denom with
+              | mk tr b =>
+                rw [hh] at etr eb
+                simp only at etr eb
+                cases X
+                simp_all
+            simp [this]
+        · rfl
+      rw [hE1, hE2, ← hF, ← hB]
+      exact hinv
+
+/-- nothing relevant changes: chains equal, the same packets in flight -/
+theorem conserve_same {cfg : Config} {w w' : World} (hc : Conserve cfg w)
+    (hchains : w'.chains = w.chains) (hsent : w'.sent = w.sent)
+    (hothers : ∀ q ∈ w.sent, pending w' q = pending w q) : Conserve cfg w' := by
+  intro A cA B cB X hpeer hX hnp
+  rw [hchains, pendingSum_same _ hsent hothers, pendingSum_same _ hsent hothers]
+  exact hc A cA B cB X hpeer hX hnp
+
 end IbcVerif.Ics20
